@@ -229,7 +229,7 @@ PLAN["C10"] = {
 
 PLAN["C07"] = {
     "level": "exploration",
-    "rule": ("rapid, on real Groth16 systems set up in-process (quick: insertion and deletion at depth 3/batch 2; thorough: + (2,3),(4,1),(1,4) in both modes): parameter sets that are VALID (generated histories/batches as C01/C02, "
+    "rule": ("rapid, on real Groth16 systems set up in-process (quick: insertion and deletion at depth 3/batch 2; thorough: + (2,3),(4,1) in both modes, (2,4) insertion, (1,4) deletion): parameter sets that are VALID (generated histories/batches as C01/C02, "
              "input hash = reference packing hash, reduced or as the raw 256-bit Keccak value), INVALID by one batch mutation (every class of C01/C02 expressible with uint32 indices), carrying a WRONG HASH, or of the WRONG SHAPE "
              "(batch+-1, depth+-1, ragged, empty, short index/commitment lists). Validity is decided by the reference relation + packing. Oracle: valid => Prove* returns (proof, nil) and, for every candidate public input "
              "h, h+r, h+2r (accept) and h+-1, h xor one bit, hash of a perturbed batch, 0, random (reject), both Verify* of the same system and gnark's groth16.Verify on a harness-built public witness agree with 'candidate == h mod r'; "
